@@ -1230,7 +1230,10 @@ def shuffle(lst, random=None):
 
     '''
 
-    _libsc3.main._rgen.shuffle(lst, random)
+    if random is None:
+        _libsc3.main._rgen.shuffle(lst)
+    else:  # Python < 3.11 only.
+        _libsc3.main._rgen.shuffle(lst, random)
 
 def scramble(lst, random=None):
     '''Return a new shuffled list from `lst`.
@@ -1241,7 +1244,7 @@ def scramble(lst, random=None):
     '''
 
     lst = lst.copy()
-    _libsc3.main._rgen.shuffle(lst, random)
+    shuffle(lst, random)
     return lst
 
 # mirror, mirror1, mirror2  # one mirror with mode.
